@@ -59,11 +59,11 @@ PROPS = {
                 rule="histories of <=40 candidate updates (convex / non-convex gradients), maxcor 1..10, n 1..12, and update sequences intercepted in real runs; non-trivial = >=2 accepted and >=1 rejected",
                 explanation="memory-discipline theorems on the memory model for every history; BFGS step SPD+secant over Q; compact=dense explored against a dense recursion",
                 assumptions=COMMON_ASSUME),
-    "C11": dict(monitor=K, level="proof", corr=["driver"],
+    "C11": dict(monitor=K, level="proof", corr=["driver:budget", "driver"],
                 rule="direct line_search calls on convex/oscillating objectives, caps 1..20, iteration 0/1/5; non-trivial = >=2 trial points",
                 explanation="theorem C11_linesearch over the line-search model for every DCSRCH behaviour; bit-exact correspondence through the driver runs",
                 assumptions=COMMON_ASSUME + ["range contract of SciPy's DCSRCH (0 <= stp <= stpmax) is a named hypothesis, checked on every recorded call"]),
-    "C12": dict(monitor=D3, level="other", corr=[],
+    "C12": dict(monitor=D3, level="other", corr=["driver"],
                 rule="unconstrained qp4/qpsp/rosen problems vs scipy L-BFGS-B (first 12 iterations, until a documented deviation or round-off) and final values on convex box problems; non-trivial = >=5 evaluation points compared",
                 explanation="the reference is a compiled binary without a model: Coq pins the constants, first-step rule and theta formula regenerated from the source; agreement with the binary is exploration",
                 assumptions=COMMON_ASSUME),
@@ -79,7 +79,7 @@ PROPS = {
                 rule="ALL histories up to length 5 (quick) / 6 (thorough) over {fun,grad,fun_and_grad} x 3 points, with scale changes, callable and FD modes (monitor) + digest comparison with the Coq model; random histories up to 200 in every gradient mode",
                 explanation="theorem C15_wrapper (all histories, by induction) + bounded-exhaustive correspondence of the model with ScalarFunction",
                 assumptions=COMMON_ASSUME + ["user functions do not distinguish +0.0 from -0.0 (np.array_equal identifies them)"]),
-    "C16": dict(monitor=D3, level="other", corr=["driver"],
+    "C16": dict(monitor=D3, level="other", corr=["driver:fd"],
                 rule="convex families and benchmarks, boxes with active bounds at start and optimum, 4 FD modes, eps / rel_step settings; non-trivial = a bound active at the returned point",
                 explanation="partial: C16_no_bound_error from C02; stencil feasibility and accuracy are properties of SciPy's routine on a floating-point trajectory: explored",
                 assumptions=COMMON_ASSUME),
